@@ -27,6 +27,7 @@ LEVEL_ASSUMPTIONS = ["field-by-field comparison in this file; CSV files are "
                      "written under .work and removed"]
 REQUIRED = {"same_name_sibling_roundtrips": 100,
             "instance_roundtrips": 300, "packing_roundtrips": 100,
+            "packing_variant_roundtrips": 300,
             "gameplan_roundtrips": 100, "ordering_roundtrips": 50,
             "result_tables": 40, "statistics_tables": 20,
             "tables_with_mixed_optional_columns": 15,
@@ -184,6 +185,34 @@ def packing_case(ctx, desc, inst):
         ctx.violation("packing-text-roundtrip",
                       "PackingSpace.from_str(to_str(y)) differs",
                       {"kind": "packing", "desc": desc, "perm": perm})
+    # the same layout as other valid elements of the space: rows in another
+    # order, bins renumbered, mirrored (each judged feasible by the oracle
+    # first; a packing need not have come out of a decoder)
+    from vlib.oracles import packing as po
+    for tag, rows in wb.layout_variants(ctx.rng, desc, wb.rows_of(y)):
+        nb = max(r[1] for r in rows)
+        if po.infeasibility(desc, rows, nb) is not None:
+            continue
+        y2 = sp.create()
+        y2[:, :] = np.array(rows, np.int64)
+        y2.n_bins = nb
+        ctx.case()
+        ctx.count("packing_variant_roundtrips")
+        try:
+            b2 = sp.from_str(sp.to_str(y2))
+            okv = (wb.rows_of(b2) == rows and b2.n_bins == nb
+                   and sp.is_equal(b2, y2))
+            why = "differs"
+        except ValueError as e:
+            okv, why = False, f"raises {e!r}"[:300]
+        if not okv:
+            ctx.violation(
+                "packing-text-roundtrip",
+                f"PackingSpace.from_str(to_str(y)) {why} for a feasible "
+                f"packing ({tag} variant of a decoded one)",
+                {"kind": "packing-rows", "desc": desc, "rows": rows,
+                 "n_bins": nb})
+            break
     return y
 
 
@@ -578,6 +607,24 @@ def replay(ctx, case):
     k = case["kind"]
     if k == "instance":
         instance_case(ctx, case["desc"])
+    elif k == "packing-rows":
+        from moptipyapps.binpacking2d.packing_space import PackingSpace
+        inst = wb.make_real(case["desc"])
+        sp = PackingSpace(inst)
+        y2 = sp.create()
+        y2[:, :] = np.array(case["rows"], np.int64)
+        y2.n_bins = case["n_bins"]
+        ctx.case()
+        try:
+            b2 = sp.from_str(sp.to_str(y2))
+            okv = wb.rows_of(b2) == case["rows"] and sp.is_equal(b2, y2)
+            why = "differs"
+        except ValueError as e:
+            okv, why = False, f"raises {e!r}"[:300]
+        if not okv:
+            ctx.violation("packing-text-roundtrip",
+                          f"PackingSpace.from_str(to_str(y)) {why} for a "
+                          f"feasible packing", case)
     elif k == "table":
         from moptipyapps.binpacking2d.encodings.ibl_encoding_1 import (
             ImprovedBottomLeftEncoding1,
